@@ -29,6 +29,8 @@ LOAD = {
  'ints_floats':     lambda n: ''.join('- %d\n- %d.5\n' % (i, i) for i in range(n)),
  'merge_keys':      lambda n: 'base: &b {a: 1}\n' + ''.join('m%d: {<<: *b, c: %d}\n' % (i, i) for i in range(n)),
  'binary':          lambda n: '!!binary |\n' + '  QUJDREVGR0hJSktMTU5PUFFSU1RVVldYWVo=\n' * n,
+ 'merge_list':      lambda n: 'a: &a {x: 1}\nb: &b {y: 2}\n' + ''.join('m%d: {<<: [*a, *b], k: %d}\n' % (i, i) for i in range(n)),
+ 'number_like':     lambda n: ''.join('- %sA\n- %s-7\n' % ('4' + '0123456789' * 5, '1_000' * 9) for _ in range(n)),
  'seq_of_maps':     lambda n: ''.join('- a: %d\n  b: x\n' % i for i in range(n)),
  # typed collections and scalars of the YAML 1.1 repository (constructor-bound work)
  'omap':            lambda n: '!!omap\n' + ''.join('- k%d: v\n' % i for i in range(n)),
